@@ -1,6 +1,7 @@
 package env
 
 import (
+	"fmt"
 	"reflect"
 
 	zz "github.com/mattn/anko/zzverif"
@@ -133,8 +134,27 @@ func ZZ_C12_values_step() {
 	t := zz.Choose(len(w.real))
 	name := zzArgNames[zz.Choose(len(zzArgNames))]
 	v := zz.Int64()
+	if zz.Choose(2) == 1 {
+		// the state may have been looked at before: observers leave nothing behind
+		// that a later operation could fail to bring up to date (a cached listing)
+		zzObserveAll(w)
+	}
 	zzValueOp(w, op, t, name, v, "")
 	zz.Assert(zzSameState(w, "a.b"), "C12.post-state")
+	zz.Assert(zzSameListing(w), fmt.Sprintf("C12.listing-is-the-key-set/op%d", op))
+}
+
+// zzObserveAll calls every read-only operation on every scope.
+func zzObserveAll(w *zzWorld) {
+	for _, e := range w.real {
+		e.GetValueSymbols()
+		e.GetTypeSymbols()
+		_ = e.String()
+		for _, n := range []string{"a", "b", "n"} {
+			e.Get(n)
+			e.Type(n)
+		}
+	}
 }
 
 // ZZ_C12_types_step: one type operation from an arbitrary state.
